@@ -122,5 +122,128 @@ func c02Mapped(seed int64) (direct []map[string]any, runs int) {
 			}
 		}
 	}
+	// ---- a restriction whose VALUE is all zeroes (size: 0 written by a builder that is a plain integer type) is still
+	// written into the token and still binds; and a derivation rule that panics on a claim omitting the field never
+	// authorizes.  (Caveats of a type that is itself an IPLD builder, so that they traverse delegated chains.)
+	for _, hops := range []int{1, 2} {
+		for _, variant := range []string{"zero-limit", "panicking-rule"} {
+			alloc := validator.NewCapability[sizeCav](
+				"blob/allocate", schema.DIDString(), sizeReader{},
+				func(claimed, delegated ucan.Capability[sizeCav]) failure.Failure {
+					if delegated.Nb().Size == nil {
+						return nil
+					}
+					// (dereferences the claim's optional field without a nil check: panics when the claim omits it)
+					if *claimed.Nb().Size > *delegated.Nb().Size {
+						return schema.NewSchemaError("escalation")
+					}
+					return nil
+				})
+			signers := []*Prin{cast.Ed("z0"), cast.Ed("z1"), cast.Ed("z2")}
+			space := signers[0].DID.String()
+			var prf delegation.Delegation
+			for i := 0; i < hops; i++ {
+				opts := []delegation.Option{delegation.WithNoExpiration()}
+				if prf != nil {
+					opts = append(opts, delegation.WithProof(delegation.FromDelegation(prf)))
+				}
+				var nb ucan.CaveatBuilder = sizeNb(0) // the restricting value is the zero value of its Go type
+				if variant == "panicking-rule" {
+					nb = sizeNb(10)
+				}
+				if i > 0 {
+					nb = sizeCav{} // later hops add nothing
+				}
+				d, err := delegation.Delegate(signers[i].Signer, signers[i+1].DID,
+					[]ucan.Capability[ucan.CaveatBuilder]{ucan.NewCapability("blob/allocate", space, nb)}, opts...)
+				if err != nil {
+					prf = nil
+					break
+				}
+				prf = d
+			}
+			if prf == nil {
+				continue
+			}
+			claim := int64(50)
+			var claimNb ucan.CaveatBuilder = sizeCav{Size: &claim}
+			if variant == "panicking-rule" {
+				claimNb = sizeCav{} // the claim omits the field the delegation restricts
+			}
+			inv, err := invocation.Invoke(signers[hops].Signer, service.DID, ucan.NewCapability("blob/allocate", space, claimNb),
+				delegation.WithNoExpiration(), delegation.WithProof(delegation.FromDelegation(prf)))
+			if err != nil {
+				continue
+			}
+			ctx := validator.NewValidationContext(service.Signer.(principal.Signer).Verifier(), alloc, validator.IsSelfIssued,
+				func(validator.Authorization[any]) validator.Revoked { return nil }, validator.ProofUnavailable,
+				func(s string) (principal.Verifier, error) { return edverifier.Parse(s) }, validator.FailDIDKeyResolution)
+			authorized := false
+			recovered(func() {
+				_, xerr := validator.Access(inv, ctx)
+				authorized = xerr == nil
+			})
+			runs++
+			if authorized {
+				what := "builder caveats: a delegation restricting size to 0 (the zero value of the builder's type) authorized a claim of 50"
+				if variant == "panicking-rule" {
+					what = "builder caveats: a claim omitting a restricted field was authorized although the derivation rule cannot have accepted it (it panics on such a claim)"
+				}
+				direct = append(direct, map[string]any{"what": what, "hops": hops})
+			}
+			// control: a claim within the restriction IS authorized (the scenario is live, not refused for another reason)
+			if variant == "panicking-rule" {
+				within := int64(5)
+				inv2, err := invocation.Invoke(signers[hops].Signer, service.DID, ucan.NewCapability[ucan.CaveatBuilder]("blob/allocate", space, sizeCav{Size: &within}),
+					delegation.WithNoExpiration(), delegation.WithProof(delegation.FromDelegation(prf)))
+				if err == nil {
+					ok2 := false
+					recovered(func() {
+						_, xerr := validator.Access(inv2, ctx)
+						ok2 = xerr == nil
+					})
+					runs++
+					if !ok2 {
+						direct = append(direct, map[string]any{"what": "builder caveats: a claim within the delegated size was refused", "hops": hops})
+					}
+				}
+			}
+		}
+	}
 	return direct, runs
+}
+
+// sizeNb: a caveat builder that is a plain integer: sizeNb(0) restricts to zero and is the zero value of its type
+type sizeNb int64
+
+func (c sizeNb) ToIPLD() (datamodel.Node, error) {
+	nb := basicnode.Prototype.Any.NewBuilder()
+	ma, _ := nb.BeginMap(1)
+	ma.AssembleKey().AssignString("size")
+	ma.AssembleValue().AssignInt(int64(c))
+	ma.Finish()
+	return nb.Build(), nil
+}
+
+// sizeCav: the capability's caveat type (itself a builder); size is optional
+type sizeCav struct{ Size *int64 }
+
+func (c sizeCav) ToIPLD() (datamodel.Node, error) { return mappedNb{Size: c.Size}.ToIPLD() }
+
+type sizeReader struct{}
+
+func (sizeReader) Read(input any) (sizeCav, failure.Failure) {
+	n := nbNode(input)
+	if n == nil || n.Kind() != datamodel.Kind_Map {
+		return sizeCav{}, schema.NewSchemaError("caveats are not a map")
+	}
+	v, err := n.LookupByString("size")
+	if err != nil {
+		return sizeCav{}, nil
+	}
+	i, err := v.AsInt()
+	if err != nil {
+		return sizeCav{}, schema.NewSchemaError("size is not an integer")
+	}
+	return sizeCav{Size: &i}, nil
 }
